@@ -123,6 +123,16 @@ func (it c07Item) bytes() ([]byte, error) {
 	return buf[:n], nil
 }
 
+// c07Sum mirrors Stream/Spec.v fsum.
+func c07Sum(b []byte) uint64 {
+	var a, s uint64
+	for _, x := range b {
+		a += uint64(x) + 1
+		s += a
+	}
+	return (s&(1<<36-1))<<28 | a&(1<<28-1)
+}
+
 // ---------------------------------------------------------------- scripted net.Conn
 
 type c07Obs struct {
@@ -260,7 +270,7 @@ func c07Run(cache, max int, data []byte, chunks []int) c07Result {
 	obsOf := func(r *pool.Message) c07Obs {
 		body, _ := r.ReadBody()
 		tok := r.Token()
-		return c07Obs{int(r.Code()), len(tok), csum(tok), len(body), csum(body)}
+		return c07Obs{int(r.Code()), len(tok), c07Sum(tok), len(body), c07Sum(body)}
 	}
 	sc := &c07Conn{data: data, chunks: chunks, cache: cache, closed: make(chan struct{})}
 	sc.atEnd = func() { logs.waitHandled(10 * time.Second) }
@@ -488,7 +498,7 @@ func c07Emit(e *Emitter, c c07Case, hist ...string) error {
 		sg[i] = strconv.Itoa(s)
 	}
 	coq := fmt.Sprintf("Stream %d %d [%s] %d %d [%s] %s %s [%s] %d %d %d %d",
-		c.cache, c.max, strings.Join(is, ";"), len(data), csum(data), strings.Join(cs, ";"),
+		c.cache, c.max, strings.Join(is, ";"), len(data), c07Sum(data), strings.Join(cs, ";"),
 		ol(l.acc), ol(l.hand), strings.Join(sg, ";"), res.errc, res.reads, res.bytes, res.badReq)
 	// non-trivial: at least two frames' worth of input or a cut inside a frame, or an oversize/malformed item
 	nt := len(c.items) >= 2 || len(c.chunks) >= 2
@@ -767,7 +777,7 @@ func runC07(a runArgs) error {
 		return e.Flush(a.out)
 	}
 	rng := NewRng(a.seed)
-	nstreams, nbig := 330, 10
+	nstreams, nbig := 330, 3
 	if a.tier == "thorough" {
 		nstreams, nbig = 4000, 120
 	}
@@ -824,7 +834,7 @@ func runC07(a runArgs) error {
 			if !ok {
 				continue
 			}
-			if i >= nstreams && (nm == "hdrsplit" || nm == "frames") && s.cache < 2048 {
+			if i >= nstreams && a.tier != "thorough" && (nm == "frames" || nm == "rand0-400") {
 				continue
 			}
 			if err := c07Emit(e, c07Case{s.cache, s.max, s.items, ch}, "kind:"+s.kind, "chunking:"+nm, fmt.Sprintf("items%d", len(s.items))); err != nil {
